@@ -1031,6 +1031,9 @@ impl<'a, 'ast> Typecheck<'a, 'ast> {
                             .iter()
                             .map(|f| &f.name.value)
                             .eq(expected_record_type.row_iter().map(|f| &f.name))
+                            // The fields taken from the base record of a record update are not
+                            // among the written fields so they must be checked the ordinary way
+                            && base.is_none()
                             && types
                                 .iter()
                                 .map(|f| &f.name.value)
